@@ -236,6 +236,8 @@ def m_future_poll(it, a, ty, callee):
         return it.call_body(it.closure_body(target.ty), [Adt(PIN, 0, [p])] + list(a[1:]))
     if isinstance(target, ShutdownFut):
         return m_shutdown_poll(it, p, a[1])
+    if isinstance(target, NextFut):
+        return m_futures_unordered_poll_next(it, [target.stream, a[1]], ty, callee)
     if hasattr(target, 'chan'):
         from .env import m_send_poll
         return m_send_poll(it, [p] + list(a[1:]), ty, callee)
@@ -298,6 +300,45 @@ def m_poll_next_unpin(it, a, ty, callee):
     return it.call('<%s as futures::Stream>::poll_next' % m.group(1), [Adt(PIN, 0, [a[0]]), a[1]], ty)
 
 
+class NextFut(Model):
+    """futures::stream::Next: polling it polls the stream once"""
+    __slots__ = ('stream',)
+
+    def __init__(self, stream):
+        self.stream = stream
+
+
+def m_stream_next(it, a, ty, callee):
+    return NextFut(a[0])
+
+
+def poll_value(it, fut_ptr, cx):
+    """poll the future stored behind fut_ptr (coroutine / model future)"""
+    return m_future_poll(it, [Adt(PIN, 0, [fut_ptr]), cx], None, '<impl std::future::Future<Output = ()> as futures::Future>::poll')
+
+
+def m_futures_unordered_poll_next(it, a, ty, callee):
+    """FuturesUnordered::poll_next: the ready future that is returned first is solver-chosen (any rotation of the set)"""
+    recv, cx = a
+    p = recv.fields[0] if isinstance(recv, Adt) and recv.ty == PIN else recv
+    while isinstance(it.load(p), Ptr):
+        p = it.load(p)
+    futs = it.load(p)
+    POLL = 'std::task::Poll'
+    n = len(futs.fields)
+    if n == 0:
+        return Adt(POLL, 0, [opt_none()])
+    start = it.choose(n) if n > 1 else 0
+    for j in range(n):
+        i = (start + j) % n
+        r = poll_value(it, Ptr(p.cell, p.path + (i,)), cx)
+        if r.variant == 0:
+            cur = it.load(p)
+            it.store(p, Seq(cur.fields[:i] + cur.fields[i + 1:], cur.kind))
+            return Adt(POLL, 0, [opt_some(r.fields[0])])
+    return Adt(POLL, 1, ())
+
+
 class ShutdownFut(Model):
     """tokio::io::util::Shutdown: polling it polls `poll_shutdown` of the writer"""
     __slots__ = ('writer',)
@@ -344,6 +385,9 @@ def install(it):
     A = it.add_model
     A(r'(?:std|core)::slice::<impl \[u8\]>::to_vec', m_to_vec)
     A(r'bytes::Bytes::to_vec', m_to_vec)
+    A(r'<futures::stream::FuturesUnordered<.*> as futures::StreamExt>::next', m_stream_next)
+    A(r'<futures::stream::FuturesUnordered<.*> as futures::Stream>::poll_next', m_futures_unordered_poll_next)
+    A(r"<futures::stream::Next<'_, .*> as (?:std::future|futures)::Future>::poll", m_future_poll)
     A(r'<.* as tokio::io::AsyncWriteExt>::shutdown', m_shutdown)
     A(r"<tokio::io::util::shutdown::Shutdown<'_, .*> as (?:std::future|futures)::Future>::poll", m_future_poll)
     A(r'<.* as std::future::IntoFuture>::into_future', lambda it, a, ty, c: a[0])
